@@ -21,3 +21,5 @@ check("C02", "harness/c02_operands.cxx", workers=(8, 16), wall=(20, 400),
       title="every factory-built node reports exactly the operands it was built from")
 check("C09", "harness/c09_types.cxx", workers=(8, 16), wall=(20, 400),
       title="every node has the type its kind prescribes")
+check("C06", "harness/c06_categories.cxx", workers=(2, 8), wall=(10, 120),
+      title="category code, accept() and visitor defaults agree")
